@@ -8,7 +8,9 @@ CONSTANTS
   ArgTokens = {1, 2, 3, 4, 5, 6, 7, 8}
   MaxArgs = 2
   MaxLen = 1
-  Variants = {"pinned", "fixed", "strict"}
+  CutLen = 6
+  FollowUp = TRUE
+  Variants = {"pinned", "fixed", "strict", "cut512"}
 INVARIANT TypeOK
 INVARIANT Conforms
 INVARIANT SentIsOneLine
